@@ -14,7 +14,7 @@ theorem panics_ok : Facts.panics = [
   "internal/phase1.Alg.Process",
   "internal/phase1.Alg.Process",
   "internal/phase1.execGreedy",
-  "internal/phase2.Alg.Process",
+  "internal/phase2.Alg.AssignLayers",
   "internal/phase2.networkSimplexProcessor.exchange",
   "internal/phase2.networkSimplexProcessor.exchange",
   "internal/phase2.networkSimplexProcessor.inHeadComponent",
